@@ -103,7 +103,7 @@ class Sign(Engine):
                 elif r < 0.65:
                     S({'op': 'verify_crafted', 'key': rng.randrange(16), 'digest': self.gen_digest(rng),
                        'kind': rng.choice(['valid', 'other-message', 'zero-r', 'zero-s', 'r=n', 's=n', 'twin', 'random', 'other-key', 'r+n',
-                                            'pubkey-offcurve', 'pubkey-garbage', 'pubkey-empty', 'pubkey-hybrid']),
+                                            'pubkey-offcurve', 'pubkey-garbage', 'pubkey-empty', 'pubkey-hybrid', 'pubkey-offcurve-x-x']),
                        'nonce': '%064x' % self.gen_nonce(rng), 'rand': [gen.rhex(rng, 32), gen.rhex(rng, 32)]})
                 elif r < 0.85:
                     S({'op': 'pub', 'how': rng.choice(['comp', 'uncomp', 'hybrid', 'hybrid-badparity', 'offcurve-c', 'offcurve-u', 'badprefix', 'x>=p', 'zeros', 'random33', 'random65',
@@ -328,6 +328,14 @@ class Sign(Engine):
         pubbytes = EC.point_encode(Q, k['comp'])
         if kind == 'pubkey-offcurve':
             pubbytes = b'\x04' + Q[0].to_bytes(32, 'big') + ((Q[1] + 1) % EC.P).to_bytes(32, 'big')
+        elif kind == 'pubkey-offcurve-x-x':
+            # nonce == secret and zero digest give r == s == Q.x: a verifier that computes with the
+            # rejected coordinates gets 1*Q' back and sees x == r
+            vz = 0
+            vdigest = bytes(32)
+            r = s = Q[0] % N
+            sig = EC.der_encode(r, s)
+            pubbytes = b'\x04' + Q[0].to_bytes(32, 'big') + bytes.fromhex(a['rand'][1])
         elif kind == 'pubkey-garbage':
             pubbytes = bytes.fromhex(a['rand'][0]) + b'\x01'
         elif kind == 'pubkey-empty':
@@ -538,7 +546,8 @@ class Sign(Engine):
         ks = []
         for i in a['keys']:
             k = self._key(i)
-            if all(k['pub'] != o['pub'] for o in ks):
+            # distinct *keys*: the compressed and uncompressed encodings of one point are the same key
+            if all(k['Q'] != o['Q'] for o in ks):
                 ks.append(k)
         tmpl = a['template']
         m = max(1, min(a['m'], len(ks)))
